@@ -260,7 +260,7 @@ def random_table_pair(rng, tok=None, max_rows=12, missing=0.1, dup_rate=0.2, ext
     if extras and rng.random() < 0.3:
         lcols_extra = lcols_extra + ['lx col!_str']            # not a valid Python identifier
         rcols_extra = rcols_extra + ['class', '1rx_int']
-    key_kind = key_kind or rng.choice(['int', 'int_shuffled', 'str', 'int_sparse', 'numstr', 'float', 'neg', 'mixed'])
+    key_kind = key_kind or rng.choice(['int', 'int_shuffled', 'str', 'int_sparse', 'numstr', 'float', 'neg', 'mixed', 'bigint'])
     pool_vals = [random_value(rng, tok, vocab, zipf, max_tokens) for _ in range(6)]
     for side, extra in (('l', lcols_extra), ('r', rcols_extra)):
         n = rng.choice([0, 1, 1, 2, 3, 5, 8, max_rows]) if rng.random() < 0.5 else \
@@ -287,6 +287,8 @@ def random_table_pair(rng, tok=None, max_rows=12, missing=0.1, dup_rate=0.2, ext
             keys = rng.sample(pool, n) if n <= len(pool) else ['%03d' % k for k in range(n)]
         elif key_kind == 'float':
             keys = [k + 0.5 for k in rng.sample(range(-20, 200), n)]
+        elif key_kind == 'bigint':      # 64-bit ids that float64 cannot represent exactly
+            keys = [2 ** 53 + 1 + 2 * k for k in rng.sample(range(500), n)]
         elif key_kind == 'mixed':       # ints and the strings that spell them are different keys
             pool = list(range(8)) + [str(k) for k in range(8)]
             keys = rng.sample(pool, n) if n <= len(pool) else list(range(n))
@@ -426,6 +428,10 @@ def random_candset(rng, L, R, l_key, r_key, size=None, with_missing_ok=True, ext
         cols.append('note')
         data['note'] = ['n%d' % rng.randint(0, 5) for _ in range(n)]
         dtypes['note'] = 'object'
+    if extra_cols and rng.random() < 0.3:
+        cols.append('hint')                       # a float column next to integer ids
+        data['hint'] = [rng.random() for _ in range(n)]
+        dtypes['hint'] = 'float64'
     if extra_cols and n:
         # the key columns are named, not positioned: right key before left key, a column in between
         r = rng.random()
@@ -460,6 +466,8 @@ def random_candset(rng, L, R, l_key, r_key, size=None, with_missing_ok=True, ext
                     dtypes[c] = 'int32'
                 elif r < 0.3:
                     dtypes[c] = 'object'
+            elif all(isinstance(k, int) and not isinstance(k, bool) and k >= 0 for k in keys) and r < 0.4:
+                dtypes[c] = 'uint64'               # same values, other integer dtype than the table key
             elif all(isinstance(k, str) for k in keys):
                 dtypes[c] = 'str' if r < 0.4 else 'object'
     return {'cols': cols, 'data': data, 'index': index, 'dtypes': dtypes}
